@@ -15,6 +15,8 @@ import (
 	"github.com/nspcc-dev/neo-go/pkg/smartcontract/trigger"
 	"github.com/nspcc-dev/neo-go/pkg/core/storage"
 	"github.com/nspcc-dev/neo-go/pkg/core/transaction"
+	"github.com/nspcc-dev/neo-go/pkg/crypto/keys"
+	"github.com/nspcc-dev/neo-go/pkg/smartcontract"
 	"github.com/nspcc-dev/neo-go/pkg/util"
 	"go.uber.org/zap"
 )
@@ -177,5 +179,73 @@ func VF_C07_admission_gate() {
 	}
 	if err == nil {
 		vfCover("admitted")
+	}
+}
+
+// vhWitnessKinds: verification scripts of the four kinds the re-validation rule distinguishes.
+func vhWitnessScript(kind int) []byte {
+	switch kind {
+	case 0: // standard signature contract
+		return vhFeeKeys[0].GetVerificationScript()
+	case 1: // standard 1-of-2 multisignature contract
+		s, _ := smartcontract.CreateMultiSigRedeemScript(1, keys.PublicKeys{vhFeeKeys[0], vhFeeKeys[1]})
+		return s
+	case 2: // custom script (state dependent in general)
+		return []byte{0x11, 0x40}
+	}
+	return nil // contract-based witness: empty verification script
+}
+
+//vf:tier quick
+//vf:unwind 200
+//vf:shadow (*Blockchain).FeePerByte
+//vf:shadow (*Blockchain).CalculateAttributesFee
+//vf:shadow (*Blockchain).GetMaxValidUntilBlockIncrement
+//vf:shadow (*Blockchain).GetMaxTraceableBlocks
+//vf:shadow (*Blockchain).verifyTxWitnesses
+//vf:shadow (*Blockchain).verifyTxAttributes
+//vf:redirect github.com/nspcc-dev/neo-go/pkg/crypto/keys.NewPublicKeyFromBytes => github.com/nspcc-dev/neo-go/pkg/core.vhFeeKeyFromBytes
+//vf:stub witness and attribute verification return harness-chosen verdicts
+//vf:bound pooled transaction with one or two signers whose witnesses are each a standard signature contract, a standard multisignature contract, a custom script or a contract-based (empty) one; symbolic ValidUntilBlock and height; on chain: nothing / the same transaction / a conflict record by its signer; attribute and witness re-verification verdicts symbolic
+func VF_C07_pool_revalidation_after_block() {
+	st := storage.NewMemCachedStore(storage.NewMemoryStore())
+	d := dao.NewSimple(st, false)
+	bc := &Blockchain{config: config.Blockchain{}, dao: d, log: zap.NewNop()}
+	height := vfU32("height")
+	vfAssume(height >= 1 && height < 1<<31)
+	atomic.StoreUint32(&bc.blockHeight, height)
+	vhGateMTB = 100
+	vhGateWitnessOK, vhGateAttrsOK = vfBool("witness-still-ok"), vfBool("attributes-ok")
+	vhGateWitnessRuns = 0
+	acc := util.Uint160{0xA1}
+	n := 1 + vfChoose("second-signer", 0, 1)
+	t := &transaction.Transaction{Nonce: 7, Script: []byte{0x40}}
+	allStandard := true
+	for i := 0; i < n; i++ {
+		kind := vfChoose("witness-kind", 0, 3)
+		if kind >= 2 {
+			allStandard = false
+		}
+		a := acc
+		a[1] = byte(i)
+		t.Signers = append(t.Signers, transaction.Signer{Account: a})
+		t.Scripts = append(t.Scripts, transaction.Witness{VerificationScript: vhWitnessScript(kind)})
+	}
+	t.ValidUntilBlock = vfU32("valid-until")
+	onChain := vfChoose("on-chain", 0, 2)
+	switch onChain {
+	case 1:
+		vfAssume(d.StoreAsTransaction(t, 0, nil) == nil)
+	case 2:
+		c := &transaction.Transaction{Nonce: 9, Script: []byte{0x40}, ValidUntilBlock: 5, Signers: []transaction.Signer{{Account: acc}}, Scripts: []transaction.Witness{{}},
+			Attributes: []transaction.Attribute{{Type: transaction.ConflictsT, Value: &transaction.Conflicts{Hash: t.Hash()}}}}
+		c.Signers[0].Account = t.Signers[0].Account
+		vfAssume(d.StoreAsTransaction(c, height, nil) == nil)
+	}
+	got := bc.IsTxStillRelevant(t, nil, false)
+	want := t.ValidUntilBlock > height && onChain == 0 && vhGateAttrsOK && (allStandard || vhGateWitnessOK)
+	vfAssert(got == want, "kept<=>still-valid")
+	if !allStandard && t.ValidUntilBlock > height && onChain == 0 && vhGateAttrsOK {
+		vfAssert(vhGateWitnessRuns == 1, "non-standard-witness=>re-verified")
 	}
 }
